@@ -1013,25 +1013,34 @@ func (r *Raft) sendAppendEntriesToPeers() {
 	r.heartbeatRound++
 	round := r.heartbeatRound
 
+	// A lease that is renewed because a quorum responded to this round starts now.
+	start := time.Now()
+
 	// Handle the single node cluster case.
 	if r.isSingleServerCluster() {
 		if r.log.LastIndex() > r.commitIndex {
 			r.commitCond.Broadcast()
 		}
-		r.tryApplyReadOnlyOperations(round)
+		r.tryApplyReadOnlyOperations(round, start)
 	}
 
 	numResponses := 1
 	for id, address := range r.configuration.Members {
 		if id != r.id {
-			go r.sendAppendEntries(id, address, &numResponses, round)
+			go r.sendAppendEntries(id, address, &numResponses, round, start)
 		}
 	}
 }
 
 // sendAppendEntries sends an AppendEntries RPC to a node with the provided ID
 // and address.
-func (r *Raft) sendAppendEntries(id string, address string, numResponses *int, round uint64) {
+func (r *Raft) sendAppendEntries(
+	id string,
+	address string,
+	numResponses *int,
+	round uint64,
+	start time.Time,
+) {
 	r.mu.Lock()
 	defer r.mu.Unlock()
 
@@ -1108,7 +1117,7 @@ func (r *Raft) sendAppendEntries(id string, address string, numResponses *int, r
 	if numResponses != nil && r.isVoter(id) {
 		*numResponses += 1
 		if r.hasQuorum(*numResponses) {
-			r.tryApplyReadOnlyOperations(round)
+			r.tryApplyReadOnlyOperations(round, start)
 			numResponses = nil
 		}
 	}
@@ -2037,10 +2046,11 @@ func (r *Raft) stepdown() {
 
 // tryApplyReadOnlyOperations renews the lease and notifies the read-only
 // loop that it may be possible to apply some read-only operations. The provided
-// round is the round of AppendEntries RPCs that a quorum responded to.
-func (r *Raft) tryApplyReadOnlyOperations(round uint64) {
+// round is the round of AppendEntries RPCs that a quorum responded to and the
+// provided time is the time at which that round was started.
+func (r *Raft) tryApplyReadOnlyOperations(round uint64, start time.Time) {
 	r.operationManager.markAsVerifiedBefore(round)
-	r.operationManager.leaderLease.renew()
+	r.operationManager.leaderLease.renewFrom(start)
 
 	// A quorum has just recognized this node as the leader. That counts as contact with
 	// the leader: vote requests are ignored for an election timeout from now on, even if
